@@ -3,7 +3,7 @@
 //
 // case:  <kind> <dims> <object X> <destination D> <nc> (<posseed> <tok>)^nc <nv> <tok>^nv
 // kinds: model smodel exp sexp pol pmodel spmodel ppol
-// output: T <tokens of the written text>  X <dump X>  D <dump D>  RT <status> <dump|=>
+// output: T <tokens of the written text>  X <dump X>  D <dump D>  RT <status> <dump|=>  RTS <status> <dump|=>
 //         then for every truncation point n = 0..ntok-1:            <status> <dump|=>
 //         then for every listed corruption (pos = posseed mod ntok): <status> <dump|=>
 //         then for every position and every vocabulary token:        <status> <dump|=>
@@ -206,11 +206,16 @@ static void run(vio::Cursor & c, vio::Out & o, const Dims & d) {
     o << "X"; o.list(dX.v);
     o << "D"; o.list(dD.v);
     o << "RT"; load(o, text, D, dD);
+    // the same text with the trailing whitespace stripped: the last number is the last byte of
+    // the stream, so its extraction succeeds and sets eofbit
+    o << "RTS"; load(o, join(toks, toks.size()), D, dD);
     for (size_t n = 0; n < toks.size(); ++n) load(o, join(toks, n), D, dD);
+    // corrupted texts alternately end in a newline and end right after the last token
+    size_t ncorr = 0;
     auto corrupt = [&](size_t pos, const std::string & rep) {
         std::vector<std::string> t2 = toks;
         if (rep == "<del>") t2.erase(t2.begin() + pos); else t2[pos] = rep;
-        load(o, join(t2, t2.size()) + "\n", D, dD);
+        load(o, join(t2, t2.size()) + ((ncorr++ % 2) ? "\n" : ""), D, dD);
     };
     size_t nc = c.nextSize();
     for (size_t i = 0; i < nc; ++i) { size_t ps = c.nextSize(); std::string rep = c.next(); if (!toks.empty()) corrupt(ps % toks.size(), rep); }
